@@ -36,6 +36,7 @@ struct Unit { const char * name; port_nuc_t pn; port_low_t pl; ref_nuc_t rn; ref
 static std::vector<double> script;
 static std::string unit_lc, port_key;
 static unsigned long seed = 1;
+static double want_evis = -1;
 
 struct Stream
 {
@@ -82,7 +83,10 @@ int main(int argc, char ** argv)
   int level         = has_level ? atoi(argv[2]) : 0;
   bool product      = !strcmp(argv[3], "product");
   seed              = strtoul(argv[4], nullptr, 10);
-  for (int i = 5; i < argc; i++) script.push_back(strtod(argv[i], nullptr));
+  for (int i = 5; i < argc; i++) {
+    if (!strncmp(argv[i], "evis=", 5)) { want_evis = strtod(argv[i] + 5, nullptr); continue; }
+    script.push_back(strtod(argv[i], nullptr));
+  }
   unit_lc = uname;
   for (auto & c : unit_lc) c = tolower(c);
   port_key = "bxdecay0" + std::to_string(uname.size()) + uname + "E";
@@ -114,8 +118,21 @@ int main(int argc, char ** argv)
     int c = (int)P[i].get_code();
     if (c != 1 && c != 2 && c != 3 && c != 47) { bad++; issues += "species; "; }
   }
-  if (P.empty() || P.size() > 100) { bad++; issues += "particle count; "; }
+  if (P.size() > 100) { bad++; issues += "more than 100 particles; "; }
   printf("]");
+  {
+    // visible energy: kinetic energies + photon energies + 1.022 MeV per positron
+    double evis = 0;
+    for (size_t i = 0; i < P.size(); i++) {
+      int c = (int)P[i].get_code();
+      double m = c == 1 ? 0. : (c == 47 ? 3727.417 : 0.51099906);
+      double p2 = P[i].get_px() * P[i].get_px() + P[i].get_py() * P[i].get_py() + P[i].get_pz() * P[i].get_pz();
+      evis += std::sqrt(p2 + m * m) - m;
+      if (c == 2) evis += 1.022;
+    }
+    printf(",\"evis\":%.17g", evis);
+    if (want_evis >= 0 && !(std::fabs(evis - want_evis) <= 0.003)) { bad++; issues += "visible energy differs from the level energy; "; }
+  }
 #ifdef REPLAY_WITH_REF
   if (product && (U->rn || U->rl)) {
     S.reset();
